@@ -16,11 +16,14 @@ def fired(patch):
         r = subprocess.run(["patch", "-p1", "-s", "-i", patch], cwd=s, capture_output=True, text=True)
         if r.returncode != 0:
             return None
-        for p in props:
-            r = subprocess.run([os.path.join(HERE, "bin", "otterlint"), "-property", p, "-repo", s, "-verif", HERE, "-no-evidence"], capture_output=True, text=True, env=ENV)
-            rules = sorted({l.split(": ")[1] for l in r.stdout.split("\n") if ": C" in l and not l.startswith(("VIOLATION", "KNOWN")) and "(" in l})
-            if rules:
-                out[p] = rules
+        def one(p):
+            r = subprocess.run([os.environ.get("OTTERLINT", os.path.join(HERE, "bin", "otterlint")), "-property", p, "-repo", s, "-verif", HERE, "-no-evidence"], capture_output=True, text=True, env=ENV)
+            return p, sorted({l.split(": ")[1] for l in r.stdout.split("\n") if ": C" in l and not l.startswith(("VIOLATION", "KNOWN")) and "(" in l})
+        from concurrent.futures import ThreadPoolExecutor
+        with ThreadPoolExecutor(max_workers=int(os.environ.get("J", "8"))) as ex:
+            for p, rules in ex.map(one, props):
+                if rules:
+                    out[p] = rules
     finally:
         shutil.rmtree(s, ignore_errors=True)
     return out
